@@ -17,6 +17,11 @@ run-time panic, the inner `Except FenError` the engine's orderly rejection.
   twelve piece codes on the board).
 * `fen_faithful`: the accepted position is the one the six input fields denote (`FenSpec.FenFaithful`).
 * `fen_counts`, `fen_rejects_unrepresentable`: what cannot be represented is not accepted (board counts).
+* `fen_oppSafe`: in an accepted position the side NOT to move is not in check (`MM.OppSafe`, Magog/Spec/MakeMove.lean).
+  This is the loader's `isOpponentKingUnderCheck` test, added to the engine after the proofs of C17 / C18 had found
+  that `4k3/8/8/8/8/8/8/4RK2 w - - 0 1` was accepted and `perft 3` on it panicked (capture of the king). The new
+  `isUnderCheck` call is itself covered by `fen_total`: at that point the piece lists and the board agree, so it
+  cannot panic (`FenLemmas.oppCheck_total`).
 * concrete `example`s by kernel evaluation: acceptance of the start position, orderly rejections, and
   round trips against the independent writer `Spec.toFen`. The GENERAL round-trip theorem against
   `Spec.toFen` is not proved (see the note before the round-trip examples).
@@ -88,7 +93,28 @@ theorem fen_rejects_unrepresentable {s : Bytes} {p : Position} (h : parseFen s =
   · rw [← c5]; exact hI.wLen
   · rw [← c6]; exact hI.bLen
 
+/-- In an accepted position the side NOT to move is not in check: the generator cannot produce the capture
+    of a king. (`MM.OppSafe p` is literally the loader's test:
+    `isUnderCheck p.board (p.side (whiteTurn p)) (p.side (!whiteTurn p)).king = .ok false`.) -/
+theorem fen_oppSafe {s : Bytes} {p : Position} (h : parseFen s = .ok (.ok p)) : MM.OppSafe p :=
+  parseFen_oppSafe h
+
 /-! ### Non-vacuity and concrete rejections (kernel evaluation of the model) -/
+
+/-- the defect witness (White to move, Black in check on the e-file) is now rejected in an orderly way … -/
+example : parseFen (strBytes "4k3/8/8/8/8/8/8/4RK2 w - - 0 1") =
+    .ok (.error (.invalid "side not to move in check")) :=
+  rejectedWith_iff.1 (by decide +kernel)
+
+/-- … while the same placement with BLACK to move (the side to move is in check — legal) is accepted, and
+    `fen_oppSafe` applies to it -/
+example : ∃ p, parseFen (strBytes "4k3/8/8/8/8/8/8/4RK2 b - - 0 1") = .ok (.ok p) ∧ MM.OppSafe p :=
+  (accepted_iff.1 (by decide +kernel)).imp fun _ hp => ⟨hp, fen_oppSafe hp⟩
+
+/-- `fen_oppSafe` on the start position -/
+example : ∃ p, parseFen (strBytes "rnbqkbnr/pppppppp/8/8/8/8/PPPPPPPP/RNBQKBNR w KQkq - 0 1") = .ok (.ok p) ∧
+    MM.OppSafe p :=
+  (accepted_iff.1 (by decide +kernel)).imp fun _ hp => ⟨hp, fen_oppSafe hp⟩
 
 /-- the standard start position is accepted -/
 example : ∃ p, parseFen (strBytes "rnbqkbnr/pppppppp/8/8/8/8/PPPPPPPP/RNBQKBNR w KQkq - 0 1") = .ok (.ok p) :=
